@@ -230,6 +230,7 @@ def main(argv=None):
     ap.add_argument('--procs', type=int, default=int(os.environ.get('VERIF_PROCS', '16')))
     ap.add_argument('--scale', type=float, default=float(os.environ.get('VERIF_SCALE', '1')))
     ap.add_argument('--no-evidence', action='store_true')
+    ap.add_argument('--dump-known', help='write one observed example case per open finding (JSON)')
     ap.add_argument('--dump-failures', help='write all collected failing cases to this file')
     ap.add_argument('--max-buckets', type=int, default=0)
     args = ap.parse_args(argv)
@@ -282,6 +283,9 @@ def main(argv=None):
     if args.dump_failures:
         with open(args.dump_failures, 'w') as fh:
             json.dump(merged['failures'], fh, indent=1, default=str)
+    if args.dump_known:
+        with open(args.dump_known, 'w') as fh:
+            json.dump(merged['known_examples'], fh, indent=1, default=str)
 
     # phase 2: shrink one representative per unexplained bucket
     violations = []
